@@ -7,7 +7,17 @@ Lean checkers (`checkCbPrimal/Dual`, `checkCfPrimal/Dual`; theorems `checkCb*_so
 lean/Toq/Properties/C20.lean): `lo <= optimum <= hi`.  toqito's value must lie in [lo - tau, hi + tau].  Relations between values of the
 implementation (symmetry, homogeneity, unitary invariance, closed forms) are checked with the same slack; each has its theorem
 (`diamond_symm`, `cb_homogeneous`, `diamond_unitary_invariant`, `cb_channel_one`, `cb_cp_eq`, `diamond_le_two`, `chanFid_symm`,
-`chanFid_self`, `cf_le_choi_fidelity`)."""
+`chanFid_self`, `cf_le_choi_fidelity`, `chanFid_le_choi_fidelity`, `diamond_choi_bounds`, `diamond_two_unitaries_closed_form`).
+
+Streams `paths` / `embedding` (no program is solved by toqito there; `Problem.solve` of picos and cvxpy is replaced by a recorder): the code
+around the programs -- guards, the `return 1` and CP shortcuts, the inferred subsystem dimension, `dual_channel`, the solver arguments -- is
+compared with the Lean mirror `Toq.Model.ChanMetricsPath` (`cbPath`, `cpShortcutAsCoded`, `dualChoiE`, `cfPath`; theorems `cbPath_*`, `cfPath_*`,
+`cbSpectral_model`) on exact dyadic inputs whose predicate verdicts are certified exactly (PSD factor / negative witness); the programs the code
+builds are evaluated at exact points of the modelled programs (certified by the verified checkers) and at negative controls: constraint matrices
+must equal the model's `cbDualBlock` / `cfPrimalBlock` / `cfLoewnerSlack` entrywise, the picos objective must be `||Tr_Y Y0|| + ||Tr_Y Y1||` of the
+model's partial traces.  A captured problem with other variables / constraint kinds than the modelled one raises `CorrespondenceBroken`; so does a call
+that leaves the modelled path (guard, shortcut, solver arguments) while the value it returns is still inside the certified optimum -- a value outside
+the certified optimum is a failing input (theorem `cb_bracket`)."""
 from __future__ import annotations
 
 import warnings
@@ -16,6 +26,7 @@ from fractions import Fraction
 import numpy as np
 
 from ..cert import DM, chol_factor, frac_json
+from ..common import CorrespondenceBroken
 from ..exact import Pure, call_rng, describe, present_nd
 from ..pool import Result, run_pool, worker_driver, fold
 from .. import qgen
@@ -31,14 +42,31 @@ RULE = ("qubit and qutrit maps given by Choi matrices built from exact data by t
         "presentation: every call of a toqito function receives the same values in a freshly drawn presentation per array argument (C / Fortran / strided memory "
         "layout; real-valued Choi matrices as float64, integer-valued ones also as int64; real/complex pairs in both argument orders); the arrays handed over must "
         "be untouched afterwards; the main diamond_distance / channel_fidelity / completely_bounded_trace_norm call is repeated on the same objects for one qubit task in "
-        "four and must return the same value")
+        "four and must return the same value; "
+        "streams paths/embedding: exact dyadic Choi matrices (mixtures with weights w^2, w dyadic, of phased permutation unitaries and reset channels; CP maps with Kraus entries (a+bi)/2; "
+        "their affine combinations, the transpose map, random dyadic Hermitian matrices with smallest eigenvalue <= -0.05; non-square arrays), call forms completely_bounded_trace_norm(J) / (J, 'cvxopt') / "
+        "(J, solver='cvxopt', abs_prim_fsb_tol=1e-9), diamond_distance(J1, J2) (also J1 = J2), completely_bounded_spectral_norm(J); channel_fidelity on full-rank mixtures with eps in {default, 1e-5, 1e-6}, "
+        "shapes d^2 x d^2 for d = 2..7 and mismatching / non-square shapes; a paths case is non-trivial when the model's verdicts are decided (never 'undecided'), an embedding case when the verified checker "
+        "accepted the point (certified feasible) or the point is a negative control")
 ASSUMPTIONS = [
     "toqito computes with the float Choi matrices it is given; the instance certified is their exact dyadic image (J1 - J2 is the float difference, exact image taken after the subtraction)",
     "tolerance 2e-5 on picos/CVXOPT-solved values (completely_bounded_trace_norm and callers); 1e-3 on channel_fidelity: SCS is called with eps=1e-7 but stops at its iteration limit "
     "('solved (inaccurate - reached max_iters)') with errors around 3e-4 on the library's own examples, so the 1e-5 tolerance for tight-eps SCS does not apply",
     "composition with a rational unitary channel is carried out in float on the Kraus operators (error 1e-15, the cb norm is 1-Lipschitz in the trace norm of the Choi matrix)",
     "closed forms evaluated in float by the harness (trace norm and fidelity through numpy eigendecompositions, convex-hull distance of unit-circle eigenvalues): tolerance 1e-7 on top of tau",
-    "two-unitary closed form 2 sqrt(1 - delta^2) and 'fidelity of the Choi states = optimum of its SDP dual' are cited (Watrous TQI Thm 3.55 / Thm 3.17), not proved",
+    "two-unitary closed form 2 sqrt(1 - delta^2): proved for every pair of unitaries (diamond_two_unitaries_closed_form; the unitary diagonalisation of U^H V comes from exists_unitary_diagonalisation); "
+    "the harness evaluates delta in float from numpy eigenvalues (convex-hull distance of unit-circle points through the largest angular gap)",
+    "'never exceeds the fidelity of the normalised Choi states' is proved against the fidelity program of C13 (chanFid_le_choi_fidelity, closed form via fidV_eq_docFid); the harness evaluates the closed form in float",
+    "supported solvers: picos offers cvxopt and osqp in this environment and only cvxopt solves semidefinite programs, so 'every supported solver' of completely_bounded_trace_norm (and of fidelity_of_separability) "
+    "is cvxopt, given by default, positionally and by keyword; channel_fidelity fixes cvxpy's SCS itself and takes only eps; the paths stream checks that the solver name and further solver options reach Problem.solve",
+    "paths/embedding streams: the model's verdicts for is_completely_positive / is_trace_preserving are exact (PSD factor with zero residual, exact partial trace, negative witness with margin 100*(atol + rtol*scale)); "
+    "inputs within tolerance of a branch boundary are not generated; a captured constraint matrix must agree with the model's to 1e-12 relative (both are float images of the same exact affine expression), "
+    "a negative control must violate some captured constraint by 1e-3",
+    "a call that leaves the modelled code path is a failing input only when the value it returns is outside the certified optimum of the exact instance (or it raises on a valid input); otherwise it is reported as a broken "
+    "correspondence (CorrespondenceBroken: rejected malformed shapes, a shortcut taken or not taken with the right value, solver arguments not reaching Problem.solve); a constraint matrix / objective of a captured program that "
+    "differs from the model's at an exact point, an accepted negative control and a rejected certified point are failing inputs (the point)",
+    "the CP shortcut is mirrored AS CODED (it returns tr J; cpShortcutAsCoded_toC), so the paths stream agrees with the code there while the certified-interval stream reports the known finding c20-cb-cp-shortcut-trace-norm",
+    "the channel fidelity of separability of product states is tested only (value 1 within 1e-4 on generated product states); its k-extension program is not modelled",
     "channel fidelity: the program certified is Katariya-Wilde Prop. 50 with the Loewner order on the Hermitian part of Tr_Y Q; a primal certificate (lower bound) needs J1, J2 > 0, "
     "so lower bounds are certified only for full-rank Choi matrices; rank-deficient pairs get the upper bound only",
     "dX != dY maps are certified by the Lean checkers only (the toqito functions take no dimension argument and assume dX = dY)",
@@ -530,7 +558,7 @@ def work_cb(task, res: Result):
             cf = 2 * np.sqrt(max(0.0, 1 - delta ** 2))
             res.count("closed-form/two-unitaries")
             if abs(v - cf) > TAU_CB + CLOSED:
-                res.violation(f"diamond_distance of two unitary channels = {v:.8f}, closed form 2 sqrt(1-delta^2) = {cf:.8f}", {"function": "diamond_distance", "args": desc, "impl": v, "closed_form": cf, "theorem": "cited: Watrous TQI Thm 3.55"})
+                res.violation(f"diamond_distance of two unitary channels = {v:.8f}, closed form 2 sqrt(1-delta^2) = {cf:.8f}", {"function": "diamond_distance", "args": desc, "impl": v, "closed_form": cf, "theorem": "diamond_two_unitaries_closed_form"})
             if lo is not None and not (lo - CLOSED <= cf <= hi + CLOSED):
                 res.violation("certified interval disagrees with the two-unitary closed form (harness or cited closed form wrong)", {"function": "two_unitaries", "args": desc, "certified": [lo, hi], "closed_form": cf})
         # unitary invariance (diamond_unitary_invariant): both channels composed with V before and W after
@@ -576,6 +604,17 @@ def work_cb(task, res: Result):
                 res.violation(f"completely_bounded_trace_norm raises {vc} on c*J (c={c})", {"function": "completely_bounded_trace_norm", "args": dc, "exception": vc})
                 continue
             a = abs(c)
+            cJ = c * Jf
+            if is_psd(cJ):
+                # c*J happens to be completely positive (J itself CP, e.g. an affine combination of channels that is a channel): the call goes through the
+                # CP branch of the code; judge it against the certified optimum of c*J itself, with the fields the known-finding matcher needs
+                Tc = cJ.reshape(d, d, d, d).trace(axis1=1, axis2=3)
+                extra_c = {"cp_non_tp": bool(np.max(np.abs(Tc - np.eye(d))) >= 1e-6), "trace_of_ptr": float(np.real(np.trace(Tc))),
+                           "lam_max": float(np.max(np.linalg.eigvalsh((Tc + Tc.conj().T) / 2)))}
+                lo_c, hi_c = _cb_interval(drv, res, cJ, d, d, "herm-scaled-cp")
+                res.count("relation/homogeneity-through-cp-branch")
+                _check_interval(res, "completely_bounded_trace_norm", dict(dc, J=cJ), vc, lo_c, hi_c, TAU_CB, "cb_cp_eq / cb_bracket / cb_homogeneous", extra_c)
+                continue
             if abs(vc - a * v) > (1 + a) * TAU_CB or (lo is not None and not (a * lo - a * TAU_CB - TAU_CB <= vc <= a * hi + a * TAU_CB + TAU_CB)):
                 res.violation(f"cb trace norm not absolutely homogeneous: ||cJ|| = {vc:.8f}, |c| ||J|| = {a * v:.8f} (c={c})", {"function": "completely_bounded_trace_norm", "args": dc, "values": [v, vc], "certified": [lo, hi], "theorem": "cb_homogeneous"})
         # cb spectral norm = cb trace norm of the dual map
@@ -800,6 +839,576 @@ def work_fos(task, res: Result):
 
 
 # ------------------------------------------------------------------------------------------------
+# streams `paths` and `embedding`: the code AROUND the programs (guards, shortcuts, dimension inference, dual_channel, solver
+# arguments) against the Lean mirror `Toq.Model.ChanMetricsPath`, and the programs the code BUILDS (captured at Problem.solve, never
+# solved) against the programs the theorems are about (Lean `cbDualBlock` / `ptrY`, `cfPrimalBlock` / `cfLoewnerSlack`)
+
+EMB_TOL = 1e-12   # captured constraint matrix vs model matrix, entrywise, relative to max(1, scale) (float image of the same exact affine expression)
+EMB_BAD = 1e-3    # a negative control must violate a captured constraint by at least this much
+SHORTCUT_TOL = 1e-12
+
+
+class _Captured(BaseException):
+    """raised by the patched Problem.solve (BaseException: must pass through `except Exception` inside toqito)"""
+
+
+def _capture(fn):
+    """run fn() with picos.Problem.solve and cvxpy.Problem.solve replaced (this process only, restored afterwards) by recorders that keep the
+    problem and abort.  Returns (outcome, picos captures, cvxpy captures); outcome = ('value', v) | ('captured',) | ('raise', type name, text);
+    a capture is (problem, positional args, keyword args) of the solve call"""
+    import cvxpy
+    import picos
+    gp, gc = [], []
+    op, oc = picos.Problem.solve, cvxpy.Problem.solve
+
+    def fp(self, *a, **kw):
+        gp.append((self, a, dict(kw)))
+        raise _Captured()
+
+    def fc(self, *a, **kw):
+        gc.append((self, a, dict(kw)))
+        raise _Captured()
+
+    picos.Problem.solve, cvxpy.Problem.solve = fp, fc
+    try:
+        try:
+            out = ("value", fn())
+        except _Captured:
+            out = ("captured",)
+        except Exception as e:  # noqa: BLE001
+            out = ("raise", type(e).__name__, str(e)[:200])
+    finally:
+        picos.Problem.solve, cvxpy.Problem.solve = op, oc
+    return out, gp, gc
+
+
+def _lean_mat(j, n, m):
+    """model matrix {"re":[[num,den]..],"im":..} -> complex float array (each entry rounded once)"""
+    re = np.array([float(Fraction(a, b)) for a, b in j["re"]]).reshape(n, m)
+    im = np.array([float(Fraction(a, b)) for a, b in j["im"]]).reshape(n, m)
+    return re + 1j * im
+
+
+def _lean_z(j):
+    return complex(float(Fraction(*j["re"])), float(Fraction(*j["im"])))
+
+
+def _close(A, B, tol=EMB_TOL):
+    A, B = np.asarray(A, dtype=complex), np.asarray(B, dtype=complex)
+    return A.shape == B.shape and float(np.max(np.abs(A - B), initial=0.0)) <= tol * max(1.0, float(np.max(np.abs(B), initial=0.0)))
+
+
+def _min_eig_h(A):
+    A = np.asarray(A, dtype=complex)
+    return float(np.min(np.linalg.eigvalsh((A + A.conj().T) / 2)))
+
+
+_SQRT_WEIGHTS = [[1.0], [0.5] * 4, [0.75, 0.5, 0.25, 0.25, 0.25], [0.5] * 3 + [0.25] * 4, [0.75, 0.5, 0.25, 0.25, 0.25]]
+
+
+def gi_unitary(rng, d):
+    """exact unitary with entries in {0, 1, i, -1, -i} (a phased permutation matrix)"""
+    perm, ph = rng.permutation(d), rng.integers(0, 4, size=d)
+    U = np.zeros((d, d), dtype=complex)
+    for i in range(d):
+        U[perm[i], i] = [1, 1j, -1, -1j][int(ph[i])]
+    return U
+
+
+def vec_k(K):
+    """vec(K) in toqito's Choi convention: entry a*dY + y is K[y, a]"""
+    return np.asarray(K, dtype=complex).T.reshape(-1)
+
+
+def exact_channel(rng, d):
+    """(L, J): a channel whose Choi matrix J = L L^H is an exact dyadic float matrix with the exact factor L (columns sqrt(p) vec(K)):
+    a mixture with weights p = w^2 (w dyadic) of phased permutations and of reset channels (non-unital)"""
+    cols = []
+    for w in _SQRT_WEIGHTS[int(rng.integers(len(_SQRT_WEIGHTS)))]:
+        if int(rng.integers(3)) == 0:
+            k = int(rng.integers(d))                       # reset to |k>: Kraus operators |k><a|
+            for a in range(d):
+                K = np.zeros((d, d), dtype=complex)
+                K[k, a] = [1, 1j, -1, -1j][int(rng.integers(4))]
+                cols.append(w * vec_k(K))
+        else:
+            cols.append(w * vec_k(gi_unitary(rng, d)))
+    L = np.stack(cols, axis=1)
+    return L, L @ L.conj().T
+
+
+def exact_cp(rng, d):
+    """(L, J): a completely positive map that is far from trace preserving, Kraus operators with entries (a + bi)/2"""
+    while True:
+        r = int(rng.integers(1, 4))
+        Ks = [(rng.integers(-2, 3, size=(d, d)) + 1j * rng.integers(-2, 3, size=(d, d))) / 2.0 for _ in range(r)]
+        L = np.stack([vec_k(K) for K in Ks], axis=1)
+        J = L @ L.conj().T
+        T = J.reshape(d, d, d, d).trace(axis1=1, axis2=3)
+        if np.max(np.abs(T - np.eye(d))) >= 0.25:
+            return L, J
+
+
+def _swap_choi(d):
+    sw = np.zeros((d * d, d * d), dtype=complex)
+    for a in range(d):
+        for b in range(d):
+            sw[a * d + b, b * d + a] = 1.0
+    return sw
+
+
+def gen_path_task(rng, i):
+    d = int(rng.choice([2, 2, 3]))
+    kind = ["channel", "cp", "noncp-tp", "noncp-herm", "diamond", "diamond-equal", "spectral-channel", "spectral-cp", "spectral-noncp", "nonsquare",
+            "noncp-swap", "diamond"][i % 12]
+    t = {"d": d, "kind": kind, "id": i, "seed": int(rng.integers(1, 2 ** 31)), "solver_form": int(rng.integers(4))}
+    if kind in ("channel", "spectral-channel"):
+        t["L"], t["J"] = exact_channel(rng, d)
+    elif kind in ("cp", "spectral-cp"):
+        t["L"], t["J"] = exact_cp(rng, d)
+    elif kind in ("noncp-tp", "spectral-noncp"):
+        a = float(rng.choice([0.25, 0.5, 1.0, 2.0]))
+        while True:
+            J1, J2 = exact_channel(rng, d)[1], exact_channel(rng, d)[1]
+            J = (1 + a) * J1 - a * J2
+            if _min_eig_h(J) <= -0.05:
+                break
+        t["J"] = J
+    elif kind == "noncp-herm":
+        while True:
+            J = rand_herm(rng, d * d)
+            if _min_eig_h(J) <= -0.05:
+                break
+        t["J"] = J
+    elif kind == "noncp-swap":
+        t["J"] = _swap_choi(d) * float(rng.choice([1.0, 0.5, 2.0]))
+    elif kind == "diamond":
+        while True:
+            J1, J2 = exact_channel(rng, d)[1], exact_channel(rng, d)[1]
+            if _min_eig_h(J1 - J2) <= -0.05:
+                break
+        t["J1"], t["J2"] = J1, J2
+    elif kind == "diamond-equal":
+        t["J1"] = exact_channel(rng, d)[1]
+        t["J2"] = t["J1"].copy()
+    else:
+        r, c = [(4, 6), (6, 4), (4, 2), (9, 4)][int(rng.integers(4))]
+        t["J"] = (rng.integers(-2, 3, size=(r, c)) + 1j * rng.integers(-2, 3, size=(r, c))) / 2.0
+    return t
+
+
+def _neg_witness(J):
+    """untrusted: eigenvector of the smallest eigenvalue, rounded to 20 bits (the Lean model checks v^H J v <= -mu v^H v exactly)"""
+    w, V = np.linalg.eigh((J + J.conj().T) / 2)
+    return DM.from_float(V[:, [0]], 20)
+
+
+def _swap_rows(A, d):
+    """rows (x, y) -> (y, x) of a matrix whose rows are indexed by x*d + y"""
+    A = np.asarray(A)
+    return A.reshape(d, d, -1).transpose(1, 0, 2).reshape(d * d, -1)
+
+
+def _model_path(drv, J, L=None, v=None):
+    rows, cols = J.shape
+    args = {"rows": rows, "cols": cols}
+    if rows == cols:
+        args["J"] = DM.exact_float(J).json()
+        if L is not None:
+            args["L"] = DM.exact_float(L).json()
+            args["k"] = int(L.shape[1])
+        if v is not None:
+            args["v"] = v.json()
+    return drv.ask("c20_cb_path", args)
+
+
+def _cb_interior_point(rng, J, N):
+    """exact dual-feasible point of Watrous' program for J: Y0 = J J^H + A A^H + 1/64, Y1 = 1 + B B^H (Y1 >= 1, so J Y1^-1 J^H <= J J^H < Y0)"""
+    Jd = DM.exact_float(J)
+    A = DM.from_float((rng.integers(-2, 3, size=(N, N)) + 1j * rng.integers(-2, 3, size=(N, N))) / 8.0, 3)
+    B = DM.from_float((rng.integers(-2, 3, size=(N, N)) + 1j * rng.integers(-2, 3, size=(N, N))) / 8.0, 3)
+    Y0 = ((Jd @ Jd.H()) + (A @ A.H()) + DM.eye(N).scale_dy(1, 6)).herm_part()
+    Y1 = (DM.eye(N) + (B @ B.H())).herm_part()
+    return Y0, Y1
+
+
+def _certify_cb_dual_point(drv, Jd, Y0, Y1, dX, dY):
+    """the verified checker's verdict on the dual point (Y0, Y1) with c_i just above lambda_max(Tr_Y Y_i)"""
+    blk = dm_block(Y0, dm_neg(Jd), dm_neg(Jd.H()), Y1)
+    T0, T1 = dm_ptr(Y0, dX, dY), dm_ptr(Y1, dX, dY)
+    c0 = dyadic_up(float(np.max(np.linalg.eigvalsh(T0.to_float()))) + 2.0 ** -24)
+    c1 = dyadic_up(float(np.max(np.linalg.eigvalsh(T1.to_float()))) + 2.0 ** -24)
+    Lb = chol_factor(blk.to_float())
+    L0 = chol_factor(float(c0) * np.eye(dX) - T0.to_float())
+    L1 = chol_factor(float(c1) * np.eye(dX) - T1.to_float())
+    if Lb is None or L0 is None or L1 is None:
+        return None
+    r = drv.ask("c20_cb_dual", {"dX": dX, "dY": dY, "J": Jd.json(), "Y0": Y0.json(), "Y1": Y1.json(), "c0": frac_json(c0), "c1": frac_json(c1),
+                                "Lb": Lb.json(), "L0": L0.json(), "L1": L1.json()})
+    return ok_val(r)
+
+
+def _embed_cb(drv, res, rng, P, kw, J, dim, desc, near_optimal):
+    """the captured picos problem of completely_bounded_trace_norm at exact points of the modelled dual program"""
+    N = J.shape[0]
+    thm = "checkCbDual_sound / cb_weak_duality (the program they speak about: cbDualBlock, ptrY)"
+    names = sorted(P.variables.keys())
+    if names != ["y0", "y1"] or any(tuple(P.variables[n_].shape) != (N, N) for n_ in names):
+        raise CorrespondenceBroken(f"completely_bounded_trace_norm: the captured picos problem has variables {[(n_, tuple(P.variables[n_].shape)) for n_ in names]}, "
+                                   f"the modelled program has y0, y1 of shape {(N, N)}")
+    cons = list(P.constraints.values())
+    if any(not hasattr(c, "psd") for c in cons):
+        raise CorrespondenceBroken(f"completely_bounded_trace_norm: captured constraints {[type(c).__name__ for c in cons]}, the modelled program has semidefinite constraints only")
+    big = [c for c in cons if tuple(c.psd.shape) == (2 * N, 2 * N)]
+    if len(big) != 1:
+        raise CorrespondenceBroken(f"completely_bounded_trace_norm: expected one {2 * N}x{2 * N} semidefinite constraint, captured shapes {[tuple(c.psd.shape) for c in cons]}")
+    res.count("embedding/cb/problems-captured")
+    if P.objective.direction != "min":
+        res.violation(f"completely_bounded_trace_norm hands a '{P.objective.direction}' problem to the solver, the modelled dual program is a 'min' problem",
+                      {"function": "completely_bounded_trace_norm", "args": desc, "impl": P.objective.direction, "model": "min", "check": "embedding-direction", "theorem": thm})
+        return
+    Jd = DM.exact_float(J)
+    pts = [("interior",) + _cb_interior_point(rng, J, N)]
+    if near_optimal:
+        try:
+            sol = solve_cb_ref(Jd.to_float(), dim, dim)
+            eta = DM.eye(N).scale_dy(1, 22)
+            pts.append(("near-optimal", DM.from_float((sol["Y0"] + sol["Y0"].conj().T) / 2, 40).herm_part() + eta,
+                        DM.from_float((sol["Y1"] + sol["Y1"].conj().T) / 2, 40).herm_part() + eta))
+        except Exception:  # noqa: BLE001
+            res.count("embedding/cb/ref-solve-failed")
+    for pname, Y0, Y1 in pts:
+        d2 = dict(desc, point=pname)
+        hi = _certify_cb_dual_point(drv, Jd, Y0, Y1, dim, dim)
+        if hi is None:
+            res.count(f"embedding/cb/{pname}-point-not-certified")
+        m = drv.ask("c20_cb_program", {"dX": dim, "dY": dim, "J": Jd.json(), "Y0": Y0.json(), "Y1": Y1.json()})
+        Mb, T0, T1 = _lean_mat(m["block"], 2 * N, 2 * N), _lean_mat(m["T0"], dim, dim), _lean_mat(m["T1"], dim, dim)
+        controls = [(pname, Y0, Y1, True)]
+        if pname == "interior":
+            controls.append(("Y1-too-small", Y0, DM.eye(N).scale_dy(1, 12), False))
+            controls.append(("Y0-not-psd", Y0 - DM.eye(N).scale_dy(int(4 + 4 * np.max(np.abs(Y0.to_float()))), 0), Y1, False))
+        for cname, A0, A1, feasible in controls:
+            try:
+                P.variables["y0"].value = A0.to_float()
+                P.variables["y1"].value = A1.to_float()
+            except Exception as e:  # noqa: BLE001
+                res.case(d2, True, "embedding/cb/variable-refuses-point")
+                res.violation(f"completely_bounded_trace_norm: a point of the modelled program cannot be written into the variables of the program the code builds ({type(e).__name__}: {str(e)[:150]})",
+                              {"function": "completely_bounded_trace_norm", "args": d2, "check": "embedding-variable", "theorem": thm})
+                return
+            slacks = [np.atleast_2d(np.array(c.psd.np, dtype=complex)) for c in cons]
+            vio = max(max(-_min_eig_h(a), float(np.max(np.abs(a - a.conj().T)))) for a in slacks)
+            if not feasible:
+                res.case(dict(d2, control=cname), True, f"embedding/cb/control/{cname}")
+                if vio < EMB_BAD:
+                    res.violation(f"completely_bounded_trace_norm: the program the code builds accepts the infeasible point '{cname}' of the modelled program (largest constraint violation {vio:.3g})",
+                                  {"function": "completely_bounded_trace_norm", "args": dict(d2, control=cname), "impl": vio, "model": "infeasible", "check": "embedding-control", "theorem": thm})
+                continue
+            res.case(d2, hi is not None, f"embedding/cb/{pname}")
+            bs = np.atleast_2d(np.array(big[0].psd.np, dtype=complex))
+            if not _close(bs, Mb):
+                res.violation(f"completely_bounded_trace_norm: the {2 * N}x{2 * N} constraint matrix of the program the code builds differs from the model's [[Y0,-J],[-J^H,Y1]] at the point '{pname}' "
+                              f"(max entry difference {float(np.max(np.abs(bs - Mb))):.3g})",
+                              {"function": "completely_bounded_trace_norm", "args": d2, "impl": bs, "model": Mb, "check": "embedding-block", "theorem": thm})
+                return
+            want = float(np.linalg.norm(T0, 2) + np.linalg.norm(T1, 2))
+            got = float(np.real(P.objective.function.value))
+            if abs(got - want) > 1e-9 * max(1.0, want):
+                res.violation(f"completely_bounded_trace_norm: objective of the program the code builds = {got:.10f} at the point '{pname}', the model's ||Tr_Y Y0|| + ||Tr_Y Y1|| = {want:.10f}",
+                              {"function": "completely_bounded_trace_norm", "args": d2, "impl": got, "model": want, "check": "embedding-objective", "theorem": thm})
+                return
+            if hi is not None and vio > 1e-9:
+                res.violation(f"completely_bounded_trace_norm: the program the code builds rejects the certified feasible point '{pname}' of the modelled program (constraint violation {vio:.3g})",
+                              {"function": "completely_bounded_trace_norm", "args": d2, "impl": vio, "model": "feasible", "check": "embedding-feasible", "theorem": thm})
+                return
+            res.count("embedding/cb/points-agree")
+
+
+def work_paths(task, res: Result):
+    from toqito.channel_metrics import completely_bounded_spectral_norm, completely_bounded_trace_norm, diamond_distance
+    from toqito.channel_ops import dual_channel
+    warnings.filterwarnings("ignore")
+    drv = worker_driver()
+    rng = np.random.default_rng(task["seed"])
+    d, kind = task["d"], task["kind"]
+    base = {"fn": "paths", "kind": kind, "d": d, "id": task["id"], "pres": task.get("pres"), "seed": task["seed"], "solver_form": task["solver_form"], "L": task.get("L")}
+    thm = "cbPath_notSquare / cbPath_channelOne_sound / cbPath_cpShortcut_sound / cbPath_sdp_dim / cbSpectral_model"
+    prng = call_rng(task.get("pres"), "paths")
+    # --- the exact argument of completely_bounded_trace_norm on this call path, with certificates for the model's verdicts
+    fname = "completely_bounded_trace_norm"
+    if kind.startswith("diamond"):
+        fname = "diamond_distance"
+        J1, J2 = task["J1"], task["J2"]
+        Jeff = J1 - J2
+        L = np.zeros((d * d, 1), dtype=complex) if kind == "diamond-equal" else None
+        args = [present_nd(prng, J1.copy()), present_nd(prng, J2.copy())]
+        fn = diamond_distance
+        desc = dict(base, J1=J1, J2=J2)
+    elif kind.startswith("spectral"):
+        fname = "completely_bounded_spectral_norm"
+        J = task["J"]
+        md = drv.ask("c20_dual_choi", {"dX": d, "dY": d, "J": DM.exact_float(J).json()})
+        Jeff = _lean_mat(md["D"], d * d, d * d)
+        a_J = present_nd(call_rng(task.get("pres"), "dual"), J.copy())
+        try:
+            td = np.asarray(dual_channel(a_J))
+            if td.shape != Jeff.shape or np.max(np.abs(td - Jeff)) > 0:
+                res.violation("dual_channel(J) differs from the model's Choi matrix of the adjoint map (dualChoiE)", {"function": "dual_channel", "args": dict(base, J=J), "impl": td, "model": Jeff, "theorem": "toP_dualChoiE / cbSpectral_model"})
+                return
+        except Exception as e:  # noqa: BLE001
+            res.violation(f"dual_channel raises {type(e).__name__} on a Choi matrix", {"function": "dual_channel", "args": dict(base, J=J), "exception": str(e)[:200]})
+            return
+        L = np.conj(_swap_rows(task["L"], d)) if task.get("L") is not None else None
+        args = [present_nd(prng, J.copy())]
+        fn = completely_bounded_spectral_norm
+        desc = dict(base, J=J)
+    else:
+        Jeff = task["J"]
+        L = task.get("L")
+        args = [present_nd(prng, Jeff.copy())]
+        fn = completely_bounded_trace_norm
+        desc = dict(base, J=Jeff)
+    v = None
+    if Jeff.shape[0] == Jeff.shape[1] and L is None:
+        v = _neg_witness(Jeff)
+    m = _model_path(drv, Jeff, L, v)
+    if "reject" in m:
+        raise RuntimeError(f"c20_cb_path rejected the request: {m}")
+    path = m["path"]
+    kw = {}
+    if fn is completely_bounded_trace_norm and task["solver_form"] == 1:
+        args.append("cvxopt")                       # the solver as a positional argument
+    elif fn is completely_bounded_trace_norm and task["solver_form"] == 2:
+        kw = {"solver": "cvxopt", "abs_prim_fsb_tol": 1e-9}    # solver as a keyword plus a solver option (must reach Problem.solve)
+    guard = Pure(*[a for a in args if isinstance(a, np.ndarray)])
+    out, gp, gc = _capture(lambda: fn(*args, **kw))
+    why = guard.modified()
+    if why is not None:
+        res.violation(f"{fname}: caller's arguments were modified ({why})", {"function": fname, "args": desc, "modified": why, "check": "purity"})
+    res.case(desc, path != "undecided", f"paths/{kind}/d{d}/{path}")
+    if path == "undecided":
+        res.count("paths/undecided")           # a certificate could not be produced: no verdict
+        return
+    info = {"function": fname, "args": desc, "model": m, "impl": out[:2] if out[0] != "value" else ("value", out[1]), "check": "path", "theorem": thm}
+    if gc:
+        raise CorrespondenceBroken(f"{fname} hands a cvxpy problem to a solver; the modelled code builds a picos problem")
+
+    def judge(val, what):
+        """the code left the modelled path and returned `val`: a failing input when `val` is outside the certified optimum of the exact instance
+        (theorem cb_bracket), otherwise only the correspondence is broken"""
+        Jc = np.asarray(Jeff, dtype=complex)
+        lo, hi = _cb_interval(drv, res, Jc, d, d, "paths-mismatch")
+        if lo is not None and not (lo - TAU_CB <= float(np.real(val)) <= hi + TAU_CB):
+            T = Jc.reshape(d, d, d, d).trace(axis1=1, axis2=3)
+            res.violation(f"{fname} = {float(np.real(val)):.8f} outside the certified optimum [{lo:.8f}, {hi:.8f}] ({what})",
+                          dict(info, impl=float(np.real(val)), certified=[lo, hi], tau=TAU_CB, theorem="cb_bracket / " + thm,
+                               cp_non_tp=bool(is_psd(Jc) and np.max(np.abs(T - np.eye(d))) >= 1e-6), trace_of_ptr=float(np.real(np.trace(T))),
+                               lam_max=float(np.max(np.linalg.eigvalsh((T + T.conj().T) / 2)))))
+            return
+        raise CorrespondenceBroken(f"{fname} ({kind}, d={d}): {what}; the value returned is inside the certified optimum, so this is no failing input")
+
+    if path == "not_square":
+        if out[0] != "raise" or out[1] != "ValueError":
+            raise CorrespondenceBroken(f"{fname}: a {Jeff.shape[0]}x{Jeff.shape[1]} argument is not rejected with ValueError ({out[:2]}); the modelled code rejects it (outside the property's quantifier: no failing input)")
+        return
+    if out[0] == "raise":
+        res.violation(f"{fname} raises {out[1]}: {out[2]} (model path: {path})", dict(info, exception=out[2]))
+        return
+    if path in ("channel_one", "cp_shortcut"):
+        z = _lean_z(m["value"])
+        if out[0] != "value" or gp:
+            raise CorrespondenceBroken(f"{fname} ({kind}, d={d}): the modelled code takes the shortcut '{path}' (verdicts cp={m['cp']}, tp={m['tp']}), the code hands a program to the solver")
+        val = complex(out[1])
+        if abs(val - abs(z)) > SHORTCUT_TOL * max(1.0, abs(z)) or (path == "channel_one" and val != 1):
+            judge(val, f"shortcut '{path}' returns {out[1]!r}, the modelled code (its formula on the exact data) gives {abs(z)!r}")
+            return
+        res.count(f"paths/shortcut-agrees/{path}")
+        return
+    # --- SDP path
+    if out[0] == "value" and not gp:
+        judge(out[1], f"the modelled code takes the SDP path (is_completely_positive = no by an exact negative witness), the code returns {out[1]!r} without handing a program to the solver")
+        return
+    if out[0] != "captured" or len(gp) != 1:
+        raise CorrespondenceBroken(f"{fname} ({kind}, d={d}): the modelled code hands exactly one program to the solver, the code: {out[:2]}, {len(gp)} captured")
+    P, pa, pk = gp[0]
+    want_solver = "cvxopt"
+    got_solver = pk.get("solver", pa[0] if pa else None)
+    if got_solver != want_solver:
+        raise CorrespondenceBroken(f"{fname}: Problem.solve is called with solver={got_solver!r}, the call asked for {want_solver!r}")
+    if kw and pk.get("abs_prim_fsb_tol") != 1e-9:
+        raise CorrespondenceBroken(f"{fname}: the solver option abs_prim_fsb_tol=1e-9 does not reach Problem.solve (got {pk})")
+    if m["dim"] != d:
+        res.violation("model: inferred subsystem dimension differs from the generated one (harness error)", info)
+        return
+    _embed_cb(drv, res, rng, P, pk, np.asarray(Jeff, dtype=complex), d, desc, near_optimal=(task["id"] % 3 == 0))
+
+
+def gen_embed_cf_task(rng, i):
+    d = 2 if i % 4 else 3
+    J1, J2 = exact_channel(rng, d)[1], exact_channel(rng, d)[1]
+    p1, p2 = float(rng.choice([0.125, 0.25])), float(rng.choice([0.25, 0.5]))
+    if i % 5 == 4:
+        J1 = J1.real + 0j if np.any(J1.imag) else J1           # keep the instance, the presentation decides the dtype
+    zeta = complex(int(rng.integers(1, 4)), int(rng.integers(-3, 4))) / 8.0
+    return {"d": d, "id": i, "J1": _mix_full(J1, p1, d), "J2": _mix_full(J2, p2, d), "zeta": zeta, "seed": int(rng.integers(1, 2 ** 31)),
+            "eps": [None, None, 1e-5, 1e-6][i % 4]}
+
+
+def work_embed_cf(task, res: Result):
+    """the cvxpy problem channel_fidelity builds, at exact points of the modelled primal program"""
+    from toqito.channel_metrics import channel_fidelity
+    warnings.filterwarnings("ignore")
+    drv = worker_driver()
+    d = task["d"]
+    N = d * d
+    J1, J2 = task["J1"], task["J2"]
+    J1, J2 = (J1 + J1.conj().T) / 2, (J2 + J2.conj().T) / 2
+    desc = {"fn": "embedding-cf", "d": d, "id": task["id"], "J1": J1, "J2": J2, "eps": task["eps"], "pres": task.get("pres"), "seed": task["seed"], "zeta": task["zeta"]}
+    thm = "checkCfPrimal_sound / cf_weak_duality / cfLoewnerSlack_toM (the program they speak about)"
+    prng = call_rng(task.get("pres"), "embed-cf")
+    a1, a2 = present_nd(prng, _as_given(J1).copy()), present_nd(prng, _as_given(J2).copy())
+    kw = {} if task["eps"] is None else {"eps": task["eps"]}
+    out, gp, gc = _capture(lambda: channel_fidelity(a1, a2, **kw))
+    mp_ = drv.ask("c20_cf_path", {"r1": N, "c1": N, "r2": N, "c2": N})
+    if out[0] == "raise":
+        res.case(desc, True, "embedding/cf/raise")
+        res.violation(f"channel_fidelity raises {out[1]}: {out[2]} on a pair of channels of local dimension {d}", {"function": "channel_fidelity", "args": desc, "exception": out[2], "local_dim": d, "theorem": "cfPath_sq"})
+        return
+    if gp or len(gc) != 1 or out[0] != "captured":
+        raise CorrespondenceBroken(f"channel_fidelity: expected exactly one cvxpy problem handed to solve(), captured {len(gc)} cvxpy / {len(gp)} picos problems, outcome {out[:2]}")
+    P, pa, pk = gc[0]
+    import cvxpy
+    if pk.get("solver") != cvxpy.SCS or pk.get("eps") != (1e-7 if task["eps"] is None else task["eps"]):
+        raise CorrespondenceBroken(f"channel_fidelity: Problem.solve is called with {pk}, the modelled code calls it with solver=SCS and eps={1e-7 if task['eps'] is None else task['eps']}")
+    vs = P.variables()
+    sc = [v_ for v_ in vs if tuple(v_.shape) in ((), (1,), (1, 1))]
+    mv = [v_ for v_ in vs if tuple(v_.shape) == (N, N)]
+    if len(vs) != 2 or len(sc) != 1 or len(mv) != 1:
+        raise CorrespondenceBroken(f"channel_fidelity: the captured problem has variables of shapes {[tuple(v_.shape) for v_ in vs]}, the modelled program has a scalar and a {N}x{N} matrix")
+    lam_v, q_v = sc[0], mv[0]
+    cons = P.constraints
+    if any(type(c).__name__ != "PSD" for c in cons):
+        raise CorrespondenceBroken(f"channel_fidelity: captured constraints {[type(c).__name__ for c in cons]}, the modelled program has semidefinite constraints only")
+    shapes = sorted(tuple(c.args[0].shape) for c in cons)
+    if shapes != sorted([(2 * N, 2 * N), (mp_["dim"], mp_["dim"])]):
+        res.case(desc, True, "embedding/cf/shapes")
+        res.violation(f"channel_fidelity: the program the code builds has semidefinite constraints of shapes {shapes}, the model's: {[(2 * N, 2 * N), (mp_['dim'], mp_['dim'])]} (inferred local dimension {mp_['dim']})",
+                      {"function": "channel_fidelity", "args": desc, "impl": shapes, "model": mp_, "check": "embedding-shapes", "local_dim": d, "theorem": "cfPath_sq"})
+        return
+    cb = [c for c in cons if tuple(c.args[0].shape) == (2 * N, 2 * N)][0]
+    cs = [c for c in cons if c is not cb][0]
+    res.count("embedding/cf/problems-captured")
+    if type(P.objective).__name__ != "Maximize":
+        res.violation("channel_fidelity hands a minimisation problem to the solver, the modelled primal program maximises lambda", {"function": "channel_fidelity", "args": desc, "check": "embedding-direction", "theorem": thm})
+        return
+    E1, E2 = DM.exact_float(J1), DM.exact_float(J2)
+    # exact points: Q = zeta * J1 scaled so that J2 >= |zeta|^2 J1 with a margin; near-optimal point of the reference solver
+    zeta = task["zeta"]
+    lmin2, lmax1 = _min_eig_h(J2), -_min_eig_h(-J1)
+    k = 0
+    while abs(zeta) ** 2 * lmax1 / (4.0 ** k) > 0.8 * lmin2 and k < 12:
+        k += 1
+    zr, zi = int(round(zeta.real * 8)), int(round(zeta.imag * 8))
+    Q = DM(E1.re * zr - E1.im * zi, E1.re * zi + E1.im * zr, E1.e + 3 + k)
+    pts = [("interior", Q)]
+    if task["id"] % 2 == 0:
+        try:
+            sol = solve_cf_ref(E1.to_float(), E2.to_float(), d, d, primal=True)
+            pts.append(("near-optimal", DM.from_float(sol["Q"], 40).scale_dy((1 << 16) - 1, 16)))
+        except Exception:  # noqa: BLE001
+            res.count("embedding/cf/ref-solve-failed")
+    for pname, Qp in pts:
+        d2 = dict(desc, point=pname)
+        T = dm_ptr(Qp, d, d).herm_part()
+        lam = dyadic_down(float(np.min(np.linalg.eigvalsh(T.to_float()))) - 2.0 ** -24)
+        if lam < 0:
+            res.count(f"embedding/cf/{pname}-point-negative-lambda")
+            continue
+        Lb = chol_factor(dm_block(E1, Qp.H(), Qp, E2).to_float())
+        Lc = chol_factor(T.to_float() - float(lam) * np.eye(d))
+        lo = None
+        if Lb is not None and Lc is not None:
+            lo = ok_val(drv.ask("c20_cf_primal", {"dX": d, "dY": d, "J1": E1.json(), "J2": E2.json(), "Q": Qp.json(), "lam": frac_json(lam), "Lb": Lb.json(), "Lc": Lc.json()}))
+        if lo is None:
+            res.count(f"embedding/cf/{pname}-point-not-certified")
+        controls = [(pname, Qp, lam, True)]
+        if pname == "interior":
+            controls.append(("lambda-too-large", Qp, lam + Fraction(1, 2), False))
+            controls.append(("Q-too-large", Qp.scale_dy(1 << (k + 6), 0), lam, False))
+        for cname, Qc, lc, feasible in controls:
+            m = drv.ask("c20_cf_program", {"dX": d, "dY": d, "J1": E1.json(), "J2": E2.json(), "Q": Qc.json(), "lam": frac_json(lc)})
+            Mb, Ms = _lean_mat(m["block"], 2 * N, 2 * N), _lean_mat(m["slack"], d, d)
+            try:
+                q_v.value = Qc.to_float()
+                lam_v.value = float(lc)
+            except Exception as e:  # noqa: BLE001
+                res.case(d2, True, "embedding/cf/variable-refuses-point")
+                res.violation(f"channel_fidelity: a point of the modelled program cannot be written into the variables of the program the code builds ({type(e).__name__}: {str(e)[:150]})",
+                              {"function": "channel_fidelity", "args": d2, "check": "embedding-variable", "theorem": thm, "local_dim": d})
+                return
+            vb, vsl = np.array(cb.args[0].value, dtype=complex), np.array(cs.args[0].value, dtype=complex)
+            vio = max(-_min_eig_h(vb), -_min_eig_h(vsl))
+            if not feasible:
+                res.case(dict(d2, control=cname), True, f"embedding/cf/control/{cname}")
+                if vio < EMB_BAD:
+                    res.violation(f"channel_fidelity: the program the code builds accepts the infeasible point '{cname}' of the modelled program (largest constraint violation {vio:.3g})",
+                                  {"function": "channel_fidelity", "args": dict(d2, control=cname), "impl": vio, "model": "infeasible", "check": "embedding-control", "theorem": thm, "local_dim": d})
+                continue
+            res.case(d2, lo is not None, f"embedding/cf/{pname}")
+            if not _close(vb, Mb) or not _close(vsl, Ms):
+                which = "block [[J1,Q^H],[Q,J2]]" if not _close(vb, Mb) else "slack (Tr_Y Q + (Tr_Y Q)^H)/2 - lambda 1"
+                res.violation(f"channel_fidelity: the {which} of the program the code builds differs from the model's at the point '{pname}'",
+                              {"function": "channel_fidelity", "args": d2, "impl": [vb, vsl], "model": [Mb, Ms], "check": "embedding-block", "theorem": thm, "local_dim": d})
+                return
+            if abs(float(np.real(P.objective.args[0].value)) - float(lc)) > 1e-15:
+                res.violation("channel_fidelity: the objective of the program the code builds is not lambda", {"function": "channel_fidelity", "args": d2, "check": "embedding-objective", "theorem": thm, "local_dim": d})
+                return
+            if lo is not None and vio > 1e-9:
+                res.violation(f"channel_fidelity: the program the code builds rejects the certified feasible point '{pname}' of the modelled program (constraint violation {vio:.3g})",
+                              {"function": "channel_fidelity", "args": d2, "impl": vio, "model": "feasible", "check": "embedding-feasible", "theorem": thm, "local_dim": d})
+                return
+            res.count("embedding/cf/points-agree")
+
+
+def work_cf_path(task, res: Result):
+    """guards and dimension inference of channel_fidelity (no solve): shapes as generated, every local dimension 2..7"""
+    from toqito.channel_metrics import channel_fidelity
+    warnings.filterwarnings("ignore")
+    drv = worker_driver()
+    (r1, c1), (r2, c2) = task["s1"], task["s2"]
+    rng = np.random.default_rng(task["seed"])
+    desc = {"fn": "cf-path", "s1": [r1, c1], "s2": [r2, c2], "seed": task["seed"]}
+    m = drv.ask("c20_cf_path", {"r1": r1, "c1": c1, "r2": r2, "c2": c2})
+    if r1 == c1 and (r1, c1) == (r2, c2) and round(np.sqrt(r1)) ** 2 == r1:
+        dd = int(round(np.sqrt(r1)))
+        A = np.eye(r1) / dd                      # completely depolarizing channel of local dimension dd
+        B = np.zeros((r1, r1))
+        for a in range(dd):
+            for b in range(dd):
+                B[a * dd + a, b * dd + b] = 1.0  # identity channel
+        B = 0.5 * A + 0.5 * B
+    else:
+        A = rng.integers(-2, 3, size=(r1, c1)) / 2.0
+        B = rng.integers(-2, 3, size=(r2, c2)) / 2.0
+    out, gp, gc = _capture(lambda: channel_fidelity(A, B))
+    res.case(desc, True, f"cf-path/{m['path']}")
+    info = {"function": "channel_fidelity", "args": desc, "model": m, "impl": out[:2], "check": "path", "theorem": "cfPath_sq / cfPath_guards", "local_dim": int(round(np.sqrt(r1)))}
+    if m["path"] in ("shape_mismatch", "not_square"):
+        if out[0] != "raise" or out[1] != "ValueError":
+            raise CorrespondenceBroken(f"channel_fidelity: arguments of shapes {(r1, c1)}, {(r2, c2)} are not rejected with ValueError ({out[:2]}); the modelled code rejects them (outside the property's quantifier: no failing input)")
+        return
+    if out[0] == "raise":
+        res.violation(f"channel_fidelity raises {out[1]}: {out[2]} on two channels of local dimension {m['dim']}", dict(info, exception=out[2]))
+        return
+    if len(gc) != 1 or gp:
+        raise CorrespondenceBroken(f"channel_fidelity: expected exactly one cvxpy problem handed to solve(), captured {len(gc)} cvxpy / {len(gp)} picos")
+    shapes = sorted(tuple(c.args[0].shape) for c in gc[0][0].constraints)
+    if shapes != sorted([(2 * r1, 2 * r1), (m["dim"], m["dim"])]):
+        res.violation(f"channel_fidelity: for {r1}x{r1} Choi matrices the program the code builds has constraints of shapes {shapes}; the model infers the local dimension {m['dim']}", info)
+
+
+# ------------------------------------------------------------------------------------------------
 
 
 def install_matchers(ctx):
@@ -876,6 +1485,12 @@ def run(ctx, model_ok=True):
     for dims, k in [[[3, 2, 2], 2], [[2, 2, 3], 2], [[2, 3, 2], 1]] + ([] if quick else [[[3, 2, 2], 2], [[2, 3, 3], 1], [[2, 2, 3], 2]]):
         fos.append({"vecs": [qgen.unit(qgen.int_vector(rng, dd, True, lim=3)) for dd in dims], "dims": dims, "k": k})   # unequal local dimensions
     run_pool(ctx, work_fos, seeded(fos))
+    # code paths + captured-program embedding (no program is solved by toqito in these streams)
+    run_pool(ctx, work_paths, seeded([gen_path_task(rng, i) for i in range(36 if quick else 360)]))
+    run_pool(ctx, work_embed_cf, seeded([gen_embed_cf_task(rng, i) for i in range(16 if quick else 120)]))
+    shapes = [((dd * dd, dd * dd), (dd * dd, dd * dd)) for dd in (2, 3, 4, 5, 6, 7)] + [((4, 4), (9, 9)), ((9, 9), (4, 4)), ((4, 6), (4, 6)), ((6, 4), (6, 4)), ((4, 4), (4, 6))]
+    run_pool(ctx, work_cf_path, [{"s1": a, "s2": b, "seed": int(rng.integers(1, 2 ** 31))} for a, b in shapes])
+    ctx.extra["embedding_tolerances"] = {"captured_vs_model_entry": EMB_TOL, "negative_control_violation": EMB_BAD, "shortcut_value": SHORTCUT_TOL}
     ctx.extra["tolerances"] = {"cb": TAU_CB, "channel_fidelity": TAU_CF, "closed_forms": CLOSED}
     ctx.extra["certified_interval_width_bound"] = WIDTH_OK
 
@@ -897,7 +1512,18 @@ def replay(ctx, rec):
     res = Result()
     drv = ctx.lean()
     P = Presenter(a.get("pres"), res, {k_: v_ for k_, v_ in a.items() if k_ not in ("J1", "J2", "J")})   # the recorded presentation seed reproduces the presentation of the main call
-    if fn == "channel_fidelity" and "J1" in a:
+    if a.get("fn") == "paths":
+        t = {"d": d, "kind": a["kind"], "id": a.get("id", 0), "seed": a["seed"], "solver_form": a.get("solver_form", 0), "pres": a.get("pres")}
+        for k_ in ("J", "J1", "J2", "L"):
+            if a.get(k_) is not None:
+                t[k_] = _arr(a[k_])
+        work_paths(t, res)
+    elif a.get("fn") == "embedding-cf":
+        work_embed_cf({"d": d, "id": a.get("id", 0), "J1": _arr(a["J1"]), "J2": _arr(a["J2"]), "zeta": complex(a["zeta"]["re"], a["zeta"]["im"]) if isinstance(a["zeta"], dict) else complex(a["zeta"]),
+                       "seed": a["seed"], "eps": a.get("eps"), "pres": a.get("pres")}, res)
+    elif a.get("fn") == "cf-path":
+        work_cf_path({"s1": tuple(a["s1"]), "s2": tuple(a["s2"]), "seed": a["seed"]}, res)
+    elif fn == "channel_fidelity" and "J1" in a:
         J1, J2 = _arr(a["J1"]), _arr(a["J2"])
         st, v = P.call("main", channel_fidelity, _as_given(J1), _as_given(J2))
         lo = hi = None
